@@ -642,7 +642,11 @@ func init() {
 			ex.mapDelete(m, k)
 			return nil
 		}
-		ex.mapInsert(m, k, assignTo(mt.Elem(), e))
+		nv := assignTo(mt.Elem(), e)
+		if needsCopy(mt.Elem()) {
+			nv = copyVal(mt.Elem(), nv)
+		}
+		ex.mapInsert(m, k, nv)
 		return nil
 	})
 	reg("(reflect.Value).MapKeys", func(ex *exec, fr *frame, fn *ssa.Function, a []value) value {
